@@ -229,6 +229,7 @@ class Run(object):
     def emit(self, a, t, op="", site="", m="", held=False, nodev=False):
         owner = self.lock.owner.name if self.lock.owner is not None else "free"
         self.ev.append(dict(a=a, t=t, op=op, site=site, m=m, held=bool(held), nodev=bool(nodev), sites=[],
+                            devnone=self.clf.device is None,
                             lock=owner, indrv=sorted(self.indrv), dev=self.devstate))
 
     def on_lock(self, what, name):
